@@ -126,7 +126,9 @@ def build(tier, seed, known):
     # family C: a lazy value that is partially evaluated, then copied, then evaluated further; and nested (matrix) values
     LAZY_PROGS = [("partial_then_dup_then_len", "?:$→x ←x h_ ←x: L_", "stack[-1]", "a"), ("partial_then_dup_then_tail", "?:$→x ←x h_ ←x: t_", "stack[-1]", "a"),
                   ("partial_then_triplicate", "?:$→x ←x h_ ←x D L_ _", "stack[-1]", "a"), ("partial_var_then_sum", "?:$→x ←x h_ ←x→y ←x ∑_ ←y", "stack[-1]", "a"),
-                  ("reverse_view_then_len", "?:$Ṙ→x ←x h_ ←x: L_", "stack[-1]", "a[::-1]")]
+                  ("reverse_view_then_len", "?:$Ṙ→x ←x h_ ←x: L_", "stack[-1]", "a[::-1]"),
+                  ("global_array_snapshot_then_push", "?⅛ ¾ ?⅛", "stack[0]", "[a]"), ("global_array_snapshot_then_pop", "?⅛ ?⅛ ¾ ¼_", "stack[0]", "[a, a]"),
+                  ("register_snapshot_then_overwrite", "?£ ¥ ₀£", "stack[0]", "a"), ("variable_snapshot_then_overwrite", "?→x ←x ₀→x", "stack[0]", "a")]
     for nm, prog, reader, want in LAZY_PROGS:
         oid = "c_" + nm
         src += "STMTS_%s = stmts_of(%r)\n" % (oid, prog)
